@@ -16,7 +16,11 @@ import (
 var dangling = []string{"-", "+", "- -", "+ -", "not", "NOT", "(", "[", "{", "$", ".", "..", "*", "/", "%", "^", "=", "<>", "<", ">=", "=~",
 	"in", "IN", "is", "is not", "as", "and", "or", "xor", ":", "|", ",", "starts with", "ends with", "contains", "order by", "skip", "limit",
 	"where", "with", "return", "unwind", "match", "optional match", "union", "union all", "distinct", "case", "when", "then", "else",
-	"count(", "any(x in", "[x in", "-[", "<-", "->", "-[:", "(:", "{a:", "'", "\"", "`", "/*", "1e", "0x", "1.", ".5"}
+	"count(", "any(x in", "[x in", "-[", "<-", "->", "-[:", "(:", "{a:", "'", "\"", "`", "/*", "1e", "0x", "1.", ".5",
+	// a parameter sign followed by nothing or by a reserved word, numbers no int64 holds, an empty map / list
+	"$", "$skip", "$limit", "$order", "$by", "$0x", "skip $skip limit $limit", "order by $order",
+	"99999999999999999999", "9223372036854775808", "-9223372036854775809", "limit 99999999999999999999", "skip 9223372036854775808", "limit 1e999", "limit 1.5",
+	"{}", "[]", "return {}", "set n += {}", "{a: {}}"}
 
 func genDangling(t *rapid.T) Case {
 	corpus.OddTextParsed()
